@@ -29,12 +29,26 @@ CHECKS = {
             "The cache API takes `now` explicitly, so the clock is virtual without hooks; a miss is always allowed (eviction); "
             "configurations with min > max are excluded; TLC and the JSON projection are trusted.",
             "DESIGN.md section 4 C15", "cache"),
+    "C03": ("model_checking",
+            "TLA+ encoder machine + requirement invariants checked by TLC (with an AsIs counterexample configuration); "
+            "TLC-enumerated (message, limit) cases with the prescribed observation replayed into BinEncoder/Message::emit; "
+            "recorded random encodings and server responses judged by a TLA+ monitor",
+            "Exhaustive model check of the emit/rollback machine over all limits 0..230 for a small message universe x "
+            "question/OPT/TSIG/TC-in; every enumerated case is concretised with exact wire sizes and encoded by the real "
+            "encoder, and all five observables (length, leftover, header counts, section prefixes, TC) compared; seeded "
+            "random messages with realistic compression x limits up to 65535 and Catalog responses over UDP (no OPT, OPT "
+            "payloads) / TCP are accepted by Trace_Encoder.",
+            "Record sizes are realised with root owners and NULL RDATA (self-checked); Message::read/BinDecoder is the reader "
+            "for 'no bytes left over'; server path driven through hook H4.",
+            "DESIGN.md section 4 C03", "encoder"),
 }
 
 NOT_YET = {
 }
 
 ENGINES = [
+    {"name": "encoder", "path": "spec/Encoder.tla", "serves_properties": ["C03"],
+     "kind_free_text": "TLA+ spec (EncoderOps, Encoder, MC_/Gen_/Trace_Encoder) + harness/src/bin/drive_encoder.rs"},
     {"name": "cache", "path": "spec/Cache.tla", "serves_properties": ["C15"],
      "kind_free_text": "TLA+ spec (CacheOps, Cache, MC_/Gen_/Trace_Cache) + harness/src/bin/drive_cache.rs"},
     {"name": "tcp", "path": "spec/TcpFraming.tla", "serves_properties": ["C17"],
